@@ -368,7 +368,86 @@ def prep_scales(V, ifm_dtype, op_type, orig_type):
     return _pair_eq(V, got_q, got_s, ref, saved[0], "channel scale: ") + [("one scale per bias", len(scales) == len(biases))]
 
 
-FUNCS = {"prep_scales": prep_scales, "qs": qs, "rqs": rqs, "classes": classes, "pool": pool, "pool_rescale": pool_rescale, "addsub": addsub, "simple_addsub": simple_addsub, "mul": mul}
+class _Obj:
+    def __init__(self, **kw):
+        self.__dict__.update(kw)
+
+
+class _NPG(_NPD):
+    """numpy stand-in for the register generator: float helpers that may meet a proxy"""
+
+    @staticmethod
+    def isclose(a, b, rtol=1e-05, atol=1e-08):
+        if isinstance(a, SFloat) or isinstance(b, SFloat):
+            RNE = fp.RNE
+            da, db = _d(a), _d(b)
+            return SBool(z3.fpLEQ(z3.fpAbs(z3.fpSub(RNE, da, db)),
+                                  z3.fpAdd(RNE, z3.FPVal(atol, fp.F64), z3.fpMul(RNE, z3.FPVal(rtol, fp.F64), z3.fpAbs(db)))))
+        return np.isclose(a, b, rtol, atol)
+
+
+def ew_select(V, kind, bits, sub, reversed_operands):
+    """generate_scaling_for_elementwise for Add/Sub: WHICH derivation feeds the OPA/OPB/OFM scale registers and how its result is placed.
+    The two derivations (scaling.simplified_/advanced_elementwise_add_sub_scale, decided by `addsub`/`simple_addsub`) are replaced by
+    recorders returning symbolic results.  The simplified (16-bit operand factors) form may only be used when both input scales are EQUAL -
+    for different scales only the advanced form equals the reference derivation; registers carry the derivation's values unchanged."""
+    import ethosu.vela.register_command_stream_generator as g
+    from ethosu.vela import api as a
+
+    s1, s2, so = _scale_inputs(V, kind)
+    calls, regs = [], {}
+    simp = (V.int("simp_opa", 1, (1 << 16)), V.int("simp_opb", 1, (1 << 16)), V.int("simp_ofm", 1 << 30, (1 << 31) - 1), V.int("simp_shift", 2, 62))
+    adv = (V.int("adv_opa", 1 << 30, (1 << 31) - 1), V.int("adv_opa_shift", 0, 63), V.int("adv_ofm", 1 << 30, (1 << 31) - 1), V.int("adv_shift", 0, 63))
+    adv_sel = V.choice("adv_operand", [g.scaling.OperandToScale.OPa, g.scaling.OperandToScale.OPb])
+
+    def simplified(i1, i2, o, input_shift=16):
+        calls.append(("simplified", i1, i2, o))
+        return simp
+
+    def advanced(i1, i2, o, bitdepth):
+        calls.append(("advanced", i1, i2, o, bitdepth))
+        return adv + (adv_sel,)
+
+    class Emit:
+        def cmd1_with_offset(self, cmd, offset, param=0):
+            regs[cmd.name] = (offset, param)
+
+    dt = a.NpuDataType.INT8 if bits == 8 else a.NpuDataType.INT16
+    fm = lambda s_: _Obj(quantization=_Obj(scale_f32=s_, zero_point=0), data_type=dt)  # noqa
+    op = _Obj(sub_op_type=a.NpuElementWiseOp[sub], ifm=fm(s1), ifm2=fm(s2), ofm=fm(so), activation=None, rescale=None, reversed_operands=bool(reversed_operands))
+    saved = (g.scaling.simplified_elementwise_add_sub_scale, g.scaling.advanced_elementwise_add_sub_scale)
+    g.scaling.simplified_elementwise_add_sub_scale, g.scaling.advanced_elementwise_add_sub_scale = simplified, advanced
+    try:
+        with core.shims((g, {"np": _NPG(), "int": core.sint})):
+            op_to_scale = g.generate_scaling_for_elementwise(Emit(), op)
+    finally:
+        g.scaling.simplified_elementwise_add_sub_scale, g.scaling.advanced_elementwise_add_sub_scale = saved
+    equal = z3.fpEQ(_d(s1), _d(s2))
+    kinds = [c[0] for c in calls]
+    cl = [("the scale derivation is called with the operation's three scales", all(c[1] is s1 and c[2] is s2 and c[3] is so for c in calls) and len(calls) >= 1),
+          ("the simplified (16-bit operand factor) derivation is only used for equal input scales", z3.Implies(z3.BoolVal("simplified" in kinds), equal)),
+          ("different input scales use the advanced derivation", z3.Implies(z3.Not(equal), z3.BoolVal(kinds == ["advanced"])))]
+    opa, opb, ofm = regs.get("NPU_SET_OPA_SCALE"), regs.get("NPU_SET_OPB_SCALE"), regs.get("NPU_SET_OFM_SCALE")
+    cl.append(("OPA, OPB and OFM scale registers are written", None not in (opa, opb, ofm)))
+    if None in (opa, opb, ofm):
+        return cl
+    if kinds and kinds[-1] == "advanced":
+        want_sel = adv_sel
+        if reversed_operands:
+            want_sel = g.scaling.OperandToScale.OPb if adv_sel == g.scaling.OperandToScale.OPa else g.scaling.OperandToScale.OPa
+        cl += [("advanced: OPA_SCALE carries the operand factor and its shift", z3.And(L(opa[0]) == L(adv[0]), L(opa[1]) == L(adv[1]))),
+               ("advanced: OPB_SCALE unused (0)", L(opb[0]) == 0),
+               ("advanced: OFM_SCALE carries the output factor and shift", z3.And(L(ofm[0]) == L(adv[2]), L(ofm[1]) == L(adv[3]))),
+               ("advanced: the operand to scale follows the derivation (swapped with reversed operands)", op_to_scale == want_sel)]
+    elif kinds == ["simplified"]:
+        half = 2 if bits == 16 else 1  # int16: operand factors halved and the shift reduced by one (aligns the double rounding)
+        cl += [("simplified: OPA/OPB carry the operand factors", z3.And(L(opa[0]) == L(simp[0]) / half, L(opb[0]) == L(simp[1]) / half)),
+               ("simplified: OFM_SCALE carries the output factor and shift", z3.And(L(ofm[0]) == L(simp[2]), L(ofm[1]) == L(simp[3]) - (1 if bits == 16 else 0))),
+               ("simplified: no operand is singled out", op_to_scale == 0)]
+    return cl
+
+
+FUNCS = {"ew_select": ew_select, "prep_scales": prep_scales, "qs": qs, "rqs": rqs, "classes": classes, "pool": pool, "pool_rescale": pool_rescale, "addsub": addsub, "simple_addsub": simple_addsub, "mul": mul}
 
 
 def _windows(tier, seed):
@@ -404,6 +483,11 @@ def instances(tier, seed):
     for ifm_dtype, op_type, orig in (("int8", "Conv2DBias", "Conv2DBias"), ("int8", "FullyConnected", "Conv2DBias"), ("int8", "FullyConnected", "FullyConnected"),
                                      ("uint8", "Conv2DBias", "Conv2DBias"), ("int16", "Conv2DBias", "Conv2DBias"), ("int8", "DepthwiseConv2DBias", "DepthwiseConv2DBias")):
         out.append(dict(key="prep_scales/%s/%s/orig_%s" % (ifm_dtype, op_type, orig), fn="prep_scales", params=dict(ifm_dtype=ifm_dtype, op_type=op_type, orig_type=orig)))
+    for kind in ("f32", "py"):
+        for bits in (8, 16):
+            for sub in ("ADD", "SUB"):
+                for rev in (0, 1):
+                    out.append(dict(key="ew_select/%s/%d/%s/rev%d" % (kind, bits, sub, rev), fn="ew_select", params=dict(kind=kind, bits=bits, sub=sub, reversed_operands=rev)))
     for kind in ("f32", "py"):
         for bits in (8, 16):
             for order in ("lt", "gt", "eq"):
